@@ -7,7 +7,7 @@ PENDING = "check not built yet in this round (see DESIGN.md section 4 for the pl
 
 CLAIMED = {
     "C18": {
-        "technique": "AST table extraction + constant folding of accessor constructors; exhaustive scan of all modules/items; item-by-item layout pin",
+        "technique": "AST table extraction + constant folding of accessor constructors; exhaustive scan of all modules/items; item-by-item layout pin; symbolic string templates of the module lookups; refresh-window coverage evaluated for every shipped log table",
         "level": "Exhaustive static scan of every shipped table module and item (finite configuration space): addressability, bit-field fit, label capacity, advertised keys, naming, FILES-reply name resolution for all 895 combinations, and an item-by-item comparison with the layout pinned at 236b7b1. Geometry is folded from /repo's own accessor constructors, so a change of the constructor ladder changes what is checked.",
         "note": "Trusted: CPython ast; the pin file baseline/pack_layout.json.gz generated once from git objects of 236b7b1; assumption that a spa reports GeckoPack.name as its platform key. Known findings: 3 generated-table defects (known_findings.txt).",
     },
@@ -22,32 +22,32 @@ CLAIMED = {
         "note": "Assumes asyncio interleaves tasks only at await and asyncio.Queue is FIFO. NOT decided: the 'few polling intervals' bound under arbitrary wake-up orders (schedule/timing dependent).",
     },
     "C10": {
-        "technique": "acquire/release pairing over the CFG with exceptional edges at every await (crash points); task-key pairing over the resolved call graph; cancellation-handler re-raise rule; no-timed-wait-in-finally rule",
+        "technique": "acquire/release pairing over the CFG with exceptional edges at every await (crash points); task-key pairing over the resolved call graph; cancellation-handler re-raise rule; no-timed-wait-in-finally rule; task registry interpreted on model tasks (domain isolation for every key pair, nothing forgotten, gather, tidy)",
         "level": "For every await between opening and closing an endpoint the close is reached on the exceptional edge too; every endpoint attribute is closed before it is dropped; every add_task key has a cancel reachable from reset/exit; handlers that can catch CancelledError re-raise on all paths; no timed wait sits in a finally of a task coroutine; observers are detached in disconnect. Three genuine defects found by these rules were repaired (fix: commits).",
         "note": "NOT decided: late effects through references invisible to the analysis (e.g. a client keeping an accessor), promptness in seconds. Clean-up statements inside a finally are assumed not to raise.",
     },
     "C01": {
-        "technique": "CFG edge-dominance guards of the install/append sites, reaching re-initialisation per attempt, loop-variant rule; residue-indexed affine abstract domain for the simulator's segment-chain modulus",
+        "technique": "CFG edge-dominance guards of the install/append sites, reaching re-initialisation per attempt, loop-variant rule; residue-indexed affine abstract domain for the simulator's segment-chain modulus; exhaustive small-model interpretation of the simulator's segment chain (all 1024 lengths x 4 starts); counted retry() on a handler model",
         "level": "Assembly discipline of both structure classes decided on every path: install only under (delivered, in-sequence, final segment); append only in sequence; success only after install, failure never after; fresh accumulators before every (re)send; bounded attempts. The simulator's chain arithmetic is decided for EVERY length by evaluating modulus and segment count symbolically per residue mod 39 (found and repaired the L%39==0 defect).",
         "note": "NOT decided: success/failure under concrete loss, duplication, re-order and delay patterns (fault sequences are runtime); delayed segments of an earlier transfer accepted by a later one. STATU/STATV byte layouts are C04's.",
     },
     "C05": {
-        "technique": "dominance of the per-message reset over the decode loop; post-dominance of clear-after-apply; loop-shape rules for in-order, unconditional application; single-acknowledgement path rule with provenance of the sequence byte",
+        "technique": "dominance of the per-message reset over the decode loop; post-dominance of clear-after-apply; loop-shape rules for in-order, unconditional application; single-acknowledgement path rule with provenance of the sequence byte; symbolic STATP decode order through /repo's own builder; flag-idiom tolerant pairing rule for the consume loop",
         "level": "Structural necessary conditions on both stacks: changes list reset per STATP (async) / cleared after apply on every normal path (sync); apply loops iterate front-to-back, unconditionally, once per element; exactly one STATQ ack per STATP, not for STATQ, protocol-range counter, addressed to sender.",
         "note": "NOT decided: interleavings of partial updates with refreshes over arbitrary histories; an observer raising inside the sync apply loop (skips the for-else clear).",
     },
     "C06": {
-        "technique": "loop-variant rule + one-send-per-iteration path rule on the retry loop; lexical lock-scope rule for every wait/send site in the async stack; who-may-send layering; iteration-guard (edge-dominance) rule for the connected/ping gates",
+        "technique": "loop-variant rule + one-send-per-iteration path rule on the retry loop; lexical lock-scope rule for every wait/send site in the async stack; who-may-send layering; iteration-guard (edge-dominance) rule for the connected/ping gates; guard rule for the timeout restart (only on the own reply)",
         "level": "Decides: retry loop strictly bounded by retry_count with a freshly built request and exactly one send per attempt; a reply is returned only on the delivered edge; every wait_for_response and request send is inside `async with protocol.Lock`; only queue_send touches the transport; all 6 command/query methods are gated by is_connected and is_responding_to_pings.",
         "note": "NOT decided (runtime quantities): the N x (timeout+pause) time bound, FIFO service order of asyncio.Lock, starvation/stalls. asyncio.Lock FIFO hand-over and cooperative scheduling are assumed.",
     },
     "C02": {
-        "technique": "bit-provenance abstract interpretation (per-bit Boolean functions of old[..]/new[..] symbols) of /repo's writer and reader code, once per geometry shape of the shipped tables; symbolic byte strings for the device-write encoders",
+        "technique": "bit-provenance abstract interpretation (per-bit Boolean functions of old[..]/new[..] symbols) of /repo's writer and reader code, once per geometry shape of the shipped tables; symbolic byte strings for the device-write encoders; post-dominance rule for the structures' write-through to the device callback",
         "level": "For every one of the 78 (type,width,bitpos,mask,writability) shapes occurring in the 20 505 shipped items, with SYMBOLIC field contents and SYMBOLIC new value: bits outside the item's field keep their provenance, field bits carry the new value, nothing overflows the field, (pos,length) are the item's; reading back the big-endian device write yields the value; read-only items refuse; sync and async writers emit identical writes; numeric/boolean string forms convert. One evaluation covers all block contents and all values.",
         "note": "Trusted: vlib.absint BV domain; protocol assumption that the spa applies SPACK writes big-endian. NOT decided: Time 'HH:MM' and temperature float round trips as values (opaque arithmetic; affine part under C14).",
     },
     "C03": {
-        "technique": "dominance/loop-shape rules on replace_status_block_segment and status_block_changed; def-use provenance of the compared values; Order-domain enumeration of the intersection filter; who-may-write rule for the observer list",
+        "technique": "dominance/loop-shape rules on replace_status_block_segment and status_block_changed; def-use provenance of the compared values; Order-domain enumeration of the intersection filter; who-may-write rule for the observer list; small-model interpretation of the Observable discipline (observers with bound-method identity)",
         "level": "Decides structurally: swap happens before any notification, each accessor is notified exactly once per update with (offset,len,previous), the notify decision compares decoded old (from the previous block) and decoded new through the same decoder and fires _on_change(self,old,new) exactly when they differ; the byte-range filter never drops an overlapping update (all orderings of the end points); watch de-duplicates, unwatch/unwatch_all remove, each live observer is called once.",
         "note": "NOT decided: raising or re-entrant observers; ordering between accessors; histories of watch/unwatch interleaved with updates beyond the list discipline.",
     },
@@ -62,47 +62,47 @@ CLAIMED = {
         "note": "NOT decided: closure of the reachable (state, facade, spa, descriptors, sensors) set under events raised concurrently from different tasks - that needs a model checker (other family).",
     },
     "C09": {
-        "technique": "structural necessary conditions only: exception-containment rule on the reconnect driver's loop, link-by-link recovery-chain rule on the extracted lifecycle relation and the driver's trigger guards, guard rule on the ping loop's no-response raise",
+        "technique": "structural necessary conditions only: exception-containment rule on the reconnect driver's loop, link-by-link recovery-chain rule on the extracted lifecycle relation and the driver's trigger guards, guard rule on the ping loop's no-response raise; isolation matrix of the interpreted task registry for the driver's key",
         "level": "Decides three necessary conditions and nothing temporal: (R1) the reconnect driver cannot be terminated by an exception [today violated - 2 known findings, reproduced]; (R2) each error state has a recovery edge and reset/locate/connect triggers line up [ERROR_SPA_NOT_FOUND has none - known finding]; (R3) an unanswered spa is reported from CONNECTED. Breaking any of them breaks self-healing; holding them does not prove it.",
         "note": "NOT decided - and not decidable by a static argument in reach: that recovery happens, within which bounded (virtual) time, after which fault scripts, and that the facade's values mirror the spa afterwards. Those clauses are the headline of the property and remain unverified here.",
     },
     "C11": {
-        "technique": "guarded-subscript / definite-assignment analysis of the construction path (CFG guard atoms) giving the set of required item keys, joined exhaustively with the key sets of all 895 platform x cfg x log combinations; value-set interpretation of the label/reminder/watercare renderings over every byte",
+        "technique": "guarded-subscript / definite-assignment analysis of the construction path (CFG guard atoms) giving the set of required item keys, joined exhaustively with the key sets of all 895 platform x cfg x log combinations; value-set interpretation of the label/reminder/watercare renderings over every byte; wire decoder composed with the facade's Reminder members by interpretation",
         "level": "Exhaustive over configurations: which items must exist for the facade to be constructed and its read-only members to evaluate is derived from the code (unguarded accessors[...] subscripts, attributes assigned only under `key in accessors`, None-able members of iterated device lists) and joined with every shipped combination - reproducing exactly the 18 combinations (9 table modules, recorded as known findings) that cannot be built. Label lookups, reminder type bytes 0..255 and watercare bytes 0..255 are evaluated exhaustively (one defect repaired).",
         "note": "NOT decided: exception freedom of every member for arbitrary 1024-byte block contents beyond missing items, label lookups, reminder types and the watercare byte.",
     },
     "C12": {
-        "technique": "shape rules on the scan pipeline (order-preserving constructs only, stage contents), normalised-AST sibling comparison of the two scans, exhaustive table join for device state keys, constant folding of the automation key set",
+        "technique": "shape rules on the scan pipeline (order-preserving constructs only, stage contents), normalised-AST sibling comparison of the two scans, exhaustive table join for device state keys, constant folding of the automation key set; small-model interpretation of both device scans on model wirings against the statement (adversarial set order); class-body evaluation of the device table; table completeness rule",
         "level": "Decides: the scan keeps table order (no set/sorted/reversed; order-preserving de-dup - defect in the blocking facade repaired), both scans identical after normalisation, each device list builds the class its filter names with the matched demand, DEVICES[d][2] exists for all wirings of all 895 combinations, all automation keys pairwise distinct, unique_id = parent-key, get_device/devices agree on one list.",
         "note": "The stage rules read comprehensions only; a rewrite as explicit loops is reported as ANALYSIS-ERROR (unsupported idiom), not as a violation. NOT decided: exactness of prefix matching for label sets never shipped.",
     },
     "C13": {
-        "technique": "CFG guard/exclusivity rules on the four switch methods; normalised-AST sibling comparison (await/async_ forms identified) of every sync/async command pair; argument-provenance rules for the SPACK builders",
+        "technique": "CFG guard/exclusivity rules on the four switch methods; normalised-AST sibling comparison (await/async_ forms identified) of every sync/async command pair; argument-provenance rules for the SPACK builders; small-model interpretation of switch/pump/heater commands on a model spa (exhaustive over state x keypad x item type); C16's counter fixpoint borrowed for the command range",
         "level": "Decides: on/off commands are suppressed exactly by the already-on/off test, exactly one of {keypad press, direct write} is emitted per remaining path with the device's own keypad code / accessor and the right constant; blocking and awaitable command methods are identical modulo await; pump/heater/unit commands write the intended item; SPACK commands carry the connected pack's type and versions, the accessor's pos/length/value unchanged and a command-range sequence; watercare set sends once then updates locally.",
         "note": "NOT decided: the closed loop with a responding spa (the write applied, echoed, and read back by the client) - that is the composition of C02, C04 and C05, each decided separately.",
     },
     "C14": {
-        "technique": "abstract interpretation in an exact affine domain (a*x+b over Fraction) of the temperature reader and both writers with a symbolic value; interpretation of unit/limit members per unit value; truth-table enumeration of the operation ladder",
+        "technique": "abstract interpretation in an exact affine domain (a*x+b over Fraction) of the temperature reader and both writers with a symbolic value; interpretation of unit/limit members per unit value; truth-table enumeration of the operation ladder; heaters and temperature accessors built by /repo's constructors in the interpreter: unit switched without notification (live unit), operation ladder with/without flag items; post-dominance rule for the heater setters",
         "level": "Decides for a SYMBOLIC raw word / temperature: reader = raw/18 (C) and (raw+320)/10 (F), each writer is the exact rational inverse of the reader with positive slope and int truncation, sync = async; symbol and limits follow the unit and denote the same temperatures; current_operation equals the stated decision on all 27 flag/ordering combinations.",
         "note": "NOT decided: IEEE-754 exactness of the read-back for all 65 536 words and the 'within one device step' bound for non-representable values (numerical properties of float arithmetic; outside static reach here).",
     },
     "C15": {
-        "technique": "CFG guard/dominance rules on the discovery callback (de-dup, filter, paired appends, found flag) and on the wait loop (bound, early exits, yield); acquire/release pairing with exceptional edges for the clean-up",
+        "technique": "CFG guard/dominance rules on the discovery callback (de-dup, filter, paired appends, found flag) and on the wait loop (bound, early exits, yield); acquire/release pairing with exceptional edges for the clean-up; exhaustive decision table of the wait loop by interpretation (16 valuations of 4 predicates); roles instead of private names",
         "level": "Decides structurally: a reply is listed only if its identifier was not seen and (when one was requested) equals the requested identifier; identifier and descriptor lists stay in step; the found flag is raised only after listing and only for filtered runs; the wait loop is bounded by the discovery timeout with exactly the two stated early exits and yields every iteration; transport and helper tasks are released on every exit incl. cancellation (defect repaired under C10).",
         "note": "NOT decided: return times relative to the configured waits (clock); behaviour for identifiers that are not valid latin-1.",
     },
     "C17": {
-        "technique": "set comparison of the three configuration tables (class-body constants); shape/dominance rules on set_config_mode and config_sleep; who-sleeps-how rule over every sleep/wait call site; guard rule on the active-mode flag",
+        "technique": "set comparison of the three configuration tables (class-body constants); shape/dominance rules on set_config_mode and config_sleep; who-sleeps-how rule over every sleep/wait call site; guard rule on the active-mode flag; exhaustive small-model decision of the configuration mode over on/off valuations of pumps and blowers",
         "level": "Decides: active and idle tables define exactly the base members, CONFIG_MEMBERS is computed from the base, the switch copies every member unconditionally from one freshly built table without suspending and wakes sleepers only after the copy; config_sleep waits on the shared future with exactly the requested timeout and renews it when done; no configuration-valued delay uses a plain sleep; active mode = some pump or blower is on.",
         "note": "NOT decided: wake-up latency and over-sleep as measured time (asyncio.wait semantics assumed).",
     },
     "C19": {
-        "technique": "skeleton alignment of the shell's log-line templates (f-strings with the spa's format templates inlined) against the regex ASTs of the snapshot reader; shape rules on the block dump writer/reader; regexes extracted from source applied to the shipped snapshot files (data check)",
+        "technique": "skeleton alignment of the shell's log-line templates (f-strings with the spa's format templates inlined) against the regex ASTs of the snapshot reader; shape rules on the block dump writer/reader; regexes extracted from source applied to the shipped snapshot files (data check); symbolic string templates of the simulator's module lookup; memoisation/invalidation rule for the header writer",
         "level": "Narrow, as stated: the five version lines and the header the shell writes are read back by the reader's regex table (literal skeletons align, integer holes land in \\d+ groups); the hex-list dump and its parser agree; traffic-log segments go through the real STATV decoder; all 34 shipped snapshots name existing platform/cfg/log modules and carry full 1024-byte blocks.",
         "note": "NOT decided: byte-exact round trip of arbitrary blocks and version tuples through repr/hex/str/re (value-level), and re-assembly of arbitrary segmentations of a traffic log; regex features outside the literal/group/whitespace fragment give ANALYSIS-ERROR, not a verdict.",
     },
     "C20": {
-        "technique": "who-may-write + lock-scope rules on the send queue; guard/dominance rules on throttle, first-match selection and retry life-cycle; exception-containment rule; sibling cross-check of response branches over the request-capable handler classes; callback-chain rule for the handshake",
+        "technique": "who-may-write + lock-scope rules on the send queue; guard/dominance rules on throttle, first-match selection and retry life-cycle; exception-containment rule; sibling cross-check of response branches over the request-capable handler classes; callback-chain rule for the handshake; small-model interpretation of the threaded engine (FIFO, throttle, first match, isolation) and of the handler life-cycle (retry/loop/clean-up) with a set clock; C01's sync-assembly obligations borrowed",
         "level": "Structural necessary conditions of the blocking stack: single tail-append producer and head-pop consumer under the lock; throttle test dominates the one sendto per pass; first accepting handler wins with immediate break, handle then handled on it only, exceptions contained; retry decrements once, refuses at 0, failure handler only after refusal, flagged handlers removed; every request-capable handler flags itself on its response; the handshake chain registers and queues each step's request.",
         "note": "NOT decided: pacing in seconds, real thread schedules, 'exactly N retransmissions' as counted events, handshake completion under loss patterns (runtime).",
     },
